@@ -728,9 +728,13 @@ def gen_fll(seed, idx):
                 body = f"{c} " + " ".join(fnum(x) for x in p)
                 if rng_c.random() < 0.15:        # a constant membership (a "floor") among the shapes of a Mamdani output
                     body = f"Constant {rng_c.choice([0.25, 0.5, 1.0])}"
+                elif c != "Discrete" and rng_c.random() < 0.25:
+                    body += f" {rng_c.choice([0.5, 0.75])}"          # a height other than 1
             elif kind == "tsukamoto":
                 c, p, _, _ = _rand_term(rng, lo, hi, ["Ramp", "Ramp", "Sigmoid", "SShape", "ZShape", "Concave"])
                 body = f"{c} " + " ".join(fnum(x) for x in p)
+                if rng_c.random() < 0.4:         # a height other than 1 (last parameter of the term)
+                    body += f" {rng_c.choice([0.5, 0.75, 0.9])}"
             else:
                 body = rng.choice([f"Constant {rng.choice([lo, hi, rng.uniform(lo, hi)])!r}",
                                    "Linear " + " ".join(repr(round(rng.uniform(-2, 2), 3)) for _ in range(n_in + 1)),
